@@ -256,6 +256,41 @@ def run_real(case):
                                "pvs": [W.to_pv(r) for r in created[i]], "hashes": hashes,
                                "hist_pvs": [W.to_pv(r) for r, _ in attempts[i]], "hist_fails": [f for _, f in attempts[i]],
                                "redeclare_error": err2, "redeclare_sig": [_desc_sig(r) for r in got2]})
+        # ---- the same histories through the stream ADAPTER (RecordWriter(path): adapter/stream.py's StreamWriter on a
+        # real, seekable file), read back with RecordReader(path)
+        import os
+        import shutil
+        import tempfile
+        from flow.record import RecordReader, RecordWriter
+        d0 = tempfile.mkdtemp(prefix="frv-c03a-")
+        try:
+            apaths = [os.path.join(d0, f"w{i}.records") for i in range(nw)]
+            aw = [RecordWriter(p) for p in apaths]
+            acreated = [[] for _ in range(nw)]
+            for w, rec in recs:
+                try:
+                    aw[w].write(rec)
+                    acreated[w].append(rec)
+                except (UnicodeEncodeError, ValueError, OverflowError):
+                    pass
+            for i in range(nw):
+                aw[i].flush()
+                aw[i].close()
+                data = open(apaths[i], "rb").read()
+                try:
+                    rd = RecordReader(apaths[i])
+                    got = list(rd)
+                    rd.close()
+                    err = None
+                except Exception as e:
+                    got, err = [], type(e).__name__ + ": " + str(e)[:80]
+                kinds, clean = _frame_kinds(data)
+                out.setdefault("adp", []).append({
+                    "error": err, "kinds": kinds, "spec_sig": [_spec_sig(spec_of[id(r)]) for r in acreated[i]],
+                    "want_sig": [_desc_sig(r) for r in acreated[i]], "got_sig": [_desc_sig(r) for r in got],
+                    "want_obs": [V.observe(r) for r in acreated[i]], "got_obs": [V.observe(r) for r in got]})
+        finally:
+            shutil.rmtree(d0, ignore_errors=True)
         # ---- JSON writers (nested records / grouped are not JSON-serialisable: only flat records go there)
         flat = [(w, rec) for w, rec in recs if type(rec).__name__ != "GroupedRecord"
                 and not any(t.startswith("record") for t, _ in rec._desc.get_field_tuples())]
@@ -320,9 +355,9 @@ def has_inner_collision(case):
 
 def oracle(case, obs):
     tag = "[inner-collision] " if has_inner_collision(case) else ""
-    for adapter in ("bin", "json"):
-        for i, w in enumerate(obs[adapter]):
-            who = f"{adapter} writer {i}"
+    for adapter in ("bin", "adp", "json"):
+        for i, w in enumerate(obs.get(adapter, [])):
+            who = f"{ {'adp': 'stream-adapter'}.get(adapter, adapter) } writer {i}"
             if w["error"]:
                 return f"{tag}{who}: reading back raised {w['error']}"
             if len(w["got_sig"]) != len(w["want_sig"]):
@@ -342,7 +377,7 @@ def oracle(case, obs):
                             f"{w['redeclare_error']}")
                 if w.get("redeclare_sig") != w["got_sig"]:
                     return f"{tag}{who}: reading while equal descriptors are declared between records yields other records"
-            if w["kinds"] and adapter == "bin":
+            if w["kinds"] and adapter in ("bin", "adp"):
                 if w["kinds"][0] != "H" or any(k.startswith("?") for k in w["kinds"]):
                     return f"{who}: unexpected frame kinds {w['kinds'][:6]}"
                 if w["want_sig"] and w["kinds"][1][0] != "D":
